@@ -224,3 +224,70 @@ Lemma lf_fifth_derivative s :
   Derive_n Y 5 s = l * (l * (l * (l * (l * Y s + G 0 s) + G 1 s) + G 2 s) + G 3 s).
 Proof. rewrite lf_Derive_n. cbn [lfY G]. ring. Qed.
 End ForcedLinear.
+
+(* ========================================================================================= *)
+(* RK4 on y' = c t y (nonlinear in (t, y) jointly): exact representation of the local error    *)
+(* ========================================================================================= *)
+Section TimesY.
+Variable c : R.
+Variable Y : R -> R.
+Hypothesis Ysol : forall s, is_derive Y s (c * s * Y s).
+
+(* Leibniz: Y^(k+1) = k c Y^(k-1) + c s Y^(k) *)
+Fixpoint tyY (k : nat) (s : R) : R :=
+  match k with
+  | O => Y s
+  | S j => match j with
+           | O => c * s * Y s
+           | S i => INR j * c * tyY i s + c * s * tyY j s
+           end
+  end.
+
+Lemma tyY_SS k s : tyY (S (S k)) s = INR (S k) * c * tyY k s + c * s * tyY (S k) s.
+Proof. reflexivity. Qed.
+
+Lemma ty_chain k s : is_derive (tyY k) s (tyY (S k) s) /\ is_derive (tyY (S k)) s (tyY (S (S k)) s).
+Proof.
+  induction k as [|k [IH1 IH2]].
+  - split; [apply Ysol|].
+    change (tyY 1) with (fun u => c * u * Y u). rewrite tyY_SS.
+    assert (EY : ex_derive Y s) by (exists (c * s * Y s); apply Ysol).
+    auto_derive; [exact EY|].
+    match goal with |- context [Derive ?F s] => rewrite (is_derive_unique F s _ (Ysol s)) end.
+    cbn [tyY INR]. ring.
+  - split; [exact IH2|].
+    change (tyY (S (S k))) with (fun u => INR (S k) * c * tyY k u + c * u * tyY (S k) u).
+    rewrite (tyY_SS (S k)).
+    assert (E1 : ex_derive (tyY k) s) by (eexists; exact IH1).
+    assert (E2 : ex_derive (tyY (S k)) s) by (eexists; exact IH2).
+    auto_derive; [split; [exact E1 | split; [exact E2 | exact I]]|].
+    repeat match goal with
+           | |- context [Derive (fun x => tyY k x) s] => rewrite (is_derive_unique (fun x => tyY k x) s _ IH1)
+           | |- context [Derive (fun x => tyY (S k) x) s] => rewrite (is_derive_unique (fun x => tyY (S k) x) s _ IH2)
+           | |- context [Derive ?F s] =>
+               first [ rewrite (is_derive_unique F s _ IH1) | rewrite (is_derive_unique F s _ IH2) ]
+           end.
+    change (match k with 0%nat => 1 | S _ => INR k + 1 end) with (INR (S k)).
+    change (match k with 0%nat => c * s * Y s | S i => INR k * c * tyY i s + c * s * tyY k s end) with (tyY (S k) s).
+    rewrite (S_INR (S k)). ring.
+Qed.
+
+Lemma ty_Derive_n k s : Derive_n Y k s = tyY k s.
+Proof. apply (Derive_n_chain Y tyY k); auto. intros j u _. apply ty_chain. Qed.
+
+Theorem ty_solution_derivs t :
+  [Derive_n Y 1 t; Derive_n Y 2 t; Derive_n Y 3 t; Derive_n Y 4 t] = ty_derivs c t (Y t).
+Proof. rewrite !ty_Derive_n. unfold ty_derivs. cbn [tyY INR]. repeat f_equal; ring. Qed.
+
+Theorem rk4_ty_local_error t h :
+  0 < h -> exists z, t < z < t + h /\
+    Y (t + h) - RK4_doc Rvs (fun s y => c * s * y) t (Y t) h =
+    h ^ 5 * (Derive_n Y 5 z / 120 - ty_defect c t (Y t) h).
+Proof.
+  intros Hh.
+  destruct (taylor_lagrange_4 Y t h Hh) as [z [Hz E]].
+  { intros s _ k Hk. apply (ex_derive_n_chain Y tyY 5); auto. intros j u _. apply ty_chain. }
+  exists z. split; [exact Hz|].
+  rewrite rk4_doc_ty, E, ty_solution_derivs. field.
+Qed.
+End TimesY.
